@@ -152,6 +152,14 @@ def programs(draw, tier):
     prog = {'nev': nev, 'nflags': nflags, 'procs': procs, 't0': draw(st.sampled_from([0, 0, 5, -5, -2.5])),
             'callbacks': draw(st.lists(st.integers(0, nev - 1), max_size=3)),
             'defusers': draw(st.lists(st.integers(0, nev - 1), max_size=1)) if draw(st.integers(0, 2)) == 0 else []}
+    if draw(st.integers(0, 3)) == 0:
+        prog['cb_interrupts'] = [[draw(st.integers(0, nev - 1)), draw(st.sampled_from(names)), draw(st.sampled_from(['cb', None, 3]))]
+                                 for _ in range(draw(st.integers(1, 2)))]
+        own = [(s_['ev'], p_['name']) for p_ in procs for s_ in p_['steps'] if s_['op'] == 'succeed']
+        if own and draw(st.booleans()):
+            # the callback interrupts the very process that triggered the event (the one that ran last)
+            k, pn = draw(st.sampled_from(own))
+            prog['cb_interrupts'].append([k, pn, 'own'])
     u = draw(st.integers(0, 5))
     if u == 0:
         prog['until'] = prog['t0'] + draw(st.integers(1, 8)) + 0.96875
